@@ -107,6 +107,41 @@ pub fn run(ctx: &Ctx, rep: &mut Reporter) -> Json {
     // ---- random byte strings
     for case_idx in ctx.case_range() {
         let mut rng = ctx_rng(ctx, case_idx);
+        if case_idx % 8 == 7 {
+            // "depends on nothing but the bytes": a mapping decorated with bytes that a
+            // well-meaning normalisation would strip (byte order marks, blank lines,
+            // trailing whitespace / NUL / ^Z, comment lines)
+            let base: Vec<u8> = match rng.below(3) {
+                0 => b"com.example.A -> a:\n    1:1:void f():3:3 -> b\n".to_vec(),
+                1 => {
+                    let d = load_corpus(rng.below(5));
+                    crate::props::c02::corpus_window(&d, &mut rng, 30)
+                }
+                _ => Vec::new(),
+            };
+            const PRE: &[&[u8]] = &[b"\xEF\xBB\xBF", b"\xFF\xFE", b"\xFE\xFF", b"\n", b"\r\n", b" ", b"\0", b"#\n", b"\t", b"\xEF\xBB", b"\xEF\xBB\xBF\xEF\xBB\xBF"];
+            const SUF: &[&[u8]] = &[b"\n", b"\r\n", b" ", b"\0", b"\n\n", b"\x1a", b"\r", b"\t", b"\xEF\xBB\xBF"];
+            let r = guarded(|| {
+                let plain = check_one(&base, "plain", rep, case_idx, &mut log);
+                let mut v = rng.pick(PRE).to_vec();
+                v.extend_from_slice(&base);
+                let pre = check_one(&v, "prefixed", rep, case_idx, &mut log);
+                let mut w = base.clone();
+                w.extend_from_slice(*rng.pick(SUF));
+                let suf = check_one(&w, "suffixed", rep, case_idx, &mut log);
+                rep.count("decorated_inputs", 2);
+                if pre == plain || suf == plain {
+                    let mut d = Json::obj();
+                    d.set("plain_head_hex", Json::s(hex(&base[..base.len().min(32)])));
+                    d.set("prefixed_head_hex", Json::s(hex(&v[..v.len().min(32)])));
+                    rep.violation(case_idx, "uuid-oracle", "a file and the same file with extra leading/trailing bytes have the same UUID", d);
+                }
+            });
+            if let Err(p) = r {
+                panic_violation(rep, case_idx, "panic", &p, Json::obj());
+            }
+            continue;
+        }
         let len = match case_idx % 8 {
             0 => rng.below(4),
             1 => rng.below(64),
